@@ -62,7 +62,7 @@ theorem tables_ok : TbOK Gen.parserTables := tbOK_of_check (by decide +kernel)
 structure Setting (cfg : Cfg) (sh : NumShow) : Prop where
   tables : cfg.tb = Gen.parserTables
   int_rt : ∀ n : Nat, n < 2 ^ 63 → cfg.num (sh.showInt n) = some (.int n)
-  float_rt : ∀ b : UInt64, cfg.num (sh.showFloat b) = some (.float b)
+  float_rt : ∀ b : UInt64, floatLit b = true → cfg.num (sh.showFloat b) = some (.float b)
 
 theorem Setting.hyp {cfg : Cfg} {sh : NumShow} (s : Setting cfg sh) : Hyp cfg sh :=
   ⟨s.tables ▸ tables_ok, s.int_rt, s.float_rt⟩
@@ -83,7 +83,7 @@ theorem parse_print {cfg : Cfg} {sh : NumShow} (hs : Setting cfg sh) (t : Node) 
     integers are printed in decimal; only `strconv.ParseFloat`/`FormatFloat` remain a parameter (`pf`, `sf`,
     constrained by: a printed float is classified as a float and reads back as itself). -/
 theorem parse_print_lexnum (pf : String → Option UInt64) (sf : UInt64 → String) (bad : String → Bool)
-    (hfloat : ∀ b, numVia Gen.numCfg pf (sf b) = some (.float b))
+    (hfloat : ∀ b, floatLit b = true → numVia Gen.numCfg pf (sf b) = some (.float b))
     (t : Node) (pc : ParenChoice) (l : Loc) :
     let cfg : Cfg := { tb := Gen.parserTables, num := numVia Gen.numCfg pf, badRegex := bad }
     let sh : NumShow := { showInt := fun n => C12.decimalSpelling n [], showFloat := sf }
@@ -143,9 +143,10 @@ theorem builtin_arities : ∀ n ar, Gen.parserTables.builtins.lookup n = some ar
 structure ImageSetting (cfg : Cfg) : Prop where
   tables : cfg.tb = Gen.parserTables
   num_ok : ∀ s v, cfg.num s = some (.int v) → 0 ≤ v ∧ v < 9223372036854775808
+  float_ok : ∀ s b, cfg.num s = some (.float b) → floatLit b = true
 
 theorem ImageSetting.hyp {cfg : Cfg} (h : ImageSetting cfg) : ImgHyp cfg :=
-  ⟨h.num_ok, by rw [h.tables]; exact builtin_arities⟩
+  ⟨h.num_ok, h.float_ok, by rw [h.tables]; exact builtin_arities⟩
 
 /-- **The image of the parser is canonical**: whatever tree the parser model returns — for any fuel and any
     token list whose EOF tokens do not carry the value `?.` (the lexer's EOF has the empty value) — satisfies
@@ -253,6 +254,78 @@ theorem paren_ident_nilsafe_witness :
     identFlagOf (parseFuel demoCfg 12
       [lparen, tok .identifier "a", rparen, tok .operator "?.", tok .identifier "b", eofTok]) =
         some ("a", false, "b", true) := by
+  decide +kernel
+
+/-! #### `Setting ∧ ImageSetting` is inhabited by a non-constant number conversion
+
+An artificial but total pair: the integer `n` is spelled as `n` letters `i`, the float with bit pattern `b` as
+`f` followed by `b` letters `i`; `unaryNum` reads both back and nothing else.  (The real conversions are Go's
+strconv functions: integers are covered by `parse_print_lexnum`, floats stay a parameter.) -/
+
+def unaryShow : NumShow :=
+  { showInt := fun n => String.ofList (List.replicate n 'i'),
+    showFloat := fun b => String.ofList ('f' :: List.replicate b.toNat 'i') }
+
+def unaryNum (s : String) : Option NumVal :=
+  if s.toList.head? = some 'f' then
+    (if s.toList.tail.all (· == 'i') && floatLit (UInt64.ofNat s.toList.tail.length) &&
+        decide (s.toList.tail.length < 2 ^ 64)
+     then some (.float (UInt64.ofNat s.toList.tail.length)) else none)
+  else if s.toList.all (· == 'i') && decide (s.toList.length < 2 ^ 63) then some (.int s.toList.length) else none
+
+def unaryCfg : Cfg := { tb := Gen.parserTables, num := unaryNum }
+
+private theorem all_replicate_i (n : Nat) : (List.replicate n 'i').all (· == 'i') = true := by
+  induction n with
+  | zero => rfl
+  | succ n ih => simp [List.replicate_succ, ih]
+
+private theorem head_replicate_i (n : Nat) : (List.replicate n 'i').head? ≠ some 'f' := by
+  cases n with
+  | zero => simp
+  | succ n => simp [List.replicate_succ]
+
+theorem unary_setting : Setting unaryCfg unaryShow ∧ ImageSetting unaryCfg := by
+  refine ⟨⟨rfl, ?_, ?_⟩, ⟨rfl, ?_, ?_⟩⟩
+  · intro n hn
+    show unaryNum (String.ofList (List.replicate n 'i')) = some (.int n)
+    unfold unaryNum
+    simp only [String.toList_ofList, if_neg (head_replicate_i n), all_replicate_i, List.length_replicate,
+      Bool.true_and, decide_eq_true_eq]
+    rw [if_pos hn]
+  · intro b hb
+    show unaryNum (String.ofList ('f' :: List.replicate b.toNat 'i')) = some (.float b)
+    unfold unaryNum
+    have hlt : b.toNat < 2 ^ 64 := b.toNat_lt
+    simp only [String.toList_ofList, List.head?_cons, if_true, List.tail_cons, all_replicate_i,
+      List.length_replicate, UInt64.ofNat_toNat, hb, Bool.true_and, decide_eq_true_eq]
+    rw [if_pos hlt]
+  · intro s v h
+    unfold unaryCfg unaryNum at h
+    simp only at h
+    split at h
+    · split at h <;> cases h
+    · split at h
+      · next hc =>
+        cases h
+        simp only [Bool.and_eq_true, decide_eq_true_eq] at hc
+        exact ⟨Int.natCast_nonneg _, by have := hc.2; omega⟩
+      · cases h
+  · intro s b h
+    unfold unaryCfg unaryNum at h
+    simp only at h
+    split at h
+    · split at h
+      · next hc =>
+        cases h
+        simp only [Bool.and_eq_true] at hc
+        exact hc.1.2
+      · cases h
+    · split at h <;> cases h
+
+/-- the conversion is not constant: `3` and `1.5` print differently and read back -/
+example : unaryShow.showInt 3 = "iii" ∧ unaryShow.showFloat 2 = "fii" ∧
+    unaryShow.showFloat 2 ≠ unaryShow.showFloat 3 ∧ (unaryNum "fii").isSome = true ∧ (unaryNum "fx").isSome = false := by
   decide +kernel
 
 def identNs : Outcome → Option Bool
